@@ -197,14 +197,14 @@ theorem token_contiguous {s : Bytes} {F : Token} (h : lexAll s = ([F] ++ [eot], 
 /-- **`ws_not_skipped_inside`**: cut the spelling of ANY token `F` into two non-empty pieces and put a non-empty
     whitespace run between them: the result does not lex to `F`.  (`token_not_split`: the same for any inserted bytes.) -/
 theorem ws_not_skipped_inside {F : Token} {x y w : Bytes} (hx : x ≠ []) (hy : y ≠ []) (hv : F.value = x ++ y)
-    (_hw : Ws w) (hne : w ≠ []) : lexAll (x ++ w ++ y) ≠ ([F] ++ [eot], none) :=
+    (hne : w ≠ []) : lexAll (x ++ w ++ y) ≠ ([F] ++ [eot], none) :=
   token_not_split hx hy hv hne
 
 /-- **`delimited_keeps_ws`**: a quoted identifier, a raw string or a JSON literal is one token whose value is the
     whole delimited text, whitespace included (`TokShape` for these types allows any code points between the
-    delimiters) -/
-theorem delimited_keeps_ws {ty : TokenType} (_hty : ty = .quotedIdentifier ∨ ty = .stringLiteral ∨ ty = .jsonLiteral)
-    {v : Bytes} (h : TokShape ty v) : lexAll v = ([⟨ty, v⟩] ++ [eot], none) := by
+    delimiters).  Stated for every token type `ty`: a spelling of a token, alone, lexes to that token. -/
+theorem delimited_keeps_ws {ty : TokenType} {v : Bytes} (h : TokShape ty v) :
+    lexAll v = ([⟨ty, v⟩] ++ [eot], none) := by
   have := lex_layout (w0 := []) (l := [(⟨ty, v⟩, [])]) Ws.nil (by simp [LayoutOK, h, Ws.nil])
   simpa [layout] using this
 
@@ -216,14 +216,14 @@ example : lexAll (bs "'a  b'") = ([⟨.stringLiteral, bs "'a  b'"⟩] ++ [eot], 
     lexAll (bs "\"a\tb\"") = ([⟨.quotedIdentifier, bs "\"a\tb\""⟩] ++ [eot], none) ∧
     lexAll (bs "`[1, 2]`") = ([⟨.jsonLiteral, bs "`[1, 2]`"⟩] ++ [eot], none) := by decide
 example : lexAll (bs "<" ++ bs " " ++ bs "=") ≠ ([⟨.lessOrEqual, bs "<="⟩] ++ [eot], none) :=
-  ws_not_skipped_inside (F := ⟨.lessOrEqual, bs "<="⟩) (by decide) (by decide) rfl (by decide) (by decide)
+  ws_not_skipped_inside (F := ⟨.lessOrEqual, bs "<="⟩) (by decide) (by decide) rfl (by decide)
 
 -- `token_contiguous`: ` 'a b'\t` is the raw string between a blank and a tab
 example : ∃ w0 w1, Ws w0 ∧ Ws w1 ∧ TokShape .stringLiteral (bs "'a b'") ∧ bs " 'a b'\t" = w0 ++ bs "'a b'" ++ w1 :=
   token_contiguous (F := ⟨.stringLiteral, bs "'a b'"⟩) (by decide)
 -- `delimited_keeps_ws`, from the shape alone
 example (v : Bytes) (h : TokShape .stringLiteral v) : lexAll v = ([⟨.stringLiteral, v⟩] ++ [eot], none) :=
-  delimited_keeps_ws (Or.inr (Or.inl rfl)) h
+  delimited_keeps_ws h
 
 /-- every multi-character token, written with a blank inside, is not that token: `[ * ]`, `[* ]`, `[ *]` are `[` `*`
     `]` (KF11), `[ ?` is `[` then an error (`?` starts no token), `[ ]` is `[` `]`, `. *` is `.` `*` -/
